@@ -285,8 +285,13 @@ struct Dumper {
         while (int(cs.size()) < want) cs.push_back(zero);
         int me = next++;
         id[p] = me;
-        char buf[64];
-        snprintf(buf, 64, " n%d=L%d[", me, lvl);
+        char buf[96];
+        if (fi.el == edge_labeling::INDEX_SET) {
+            // index sets: the stored number of members below the node
+            snprintf(buf, 96, " n%d=L%d#%ld[", me, lvl, long(F->getIndexSetCardinality(p)));
+        } else {
+            snprintf(buf, 96, " n%d=L%d[", me, lvl);
+        }
         body += buf;
         for (size_t i=0; i<cs.size(); i++) {
             if (i) body += " ";
